@@ -131,7 +131,7 @@ def calls(rng, matrix, tier):
                               "hh": "ok:" + text_of("plain", rng), "ls": rng.choice([["a", "", "b"], [""], [], ["", ""], [text_of(cls, rng)]])}, "r", None))
     for n in INTS:
         out.append(("regexPath", {"n": n}, "r", None))      # a path parameter behind a regex segment of the template
-    out.append(("names", {"type": 1, "fooBar": UUID, "async": 2, "camelCase": None, "self": 3, "snake_arg": [4, 5], "match": True}, "n", None))
+    out.append(("names", {"type": 1, "fooBar": UUID, "async": 2, "camelCase": None, "self": 3, "snakeArg": [4, 5], "match": True}, "n", None))
     out.append(("safeMix", {"auth": "tok", "safePath": "sp", "unsafePath": "u p/x", "safeQuery": "s&q", "unsafeQuery": "", "safeHeader": "sh",
                             "unsafeHeader": "uh", "dnlQuery": None, "safeInt": 5, "body": {"a": 1}}, "r", None))
     out.append(("safeBody", {"body": {"a": "x", "c": "BLUE"}, "n": 1}, "r", None))
